@@ -188,6 +188,8 @@ UNSYNCED = {
     "added-partial-sync": [("write", "d1", "new", 2048, 0), ("cmd", "sync", "-B", "1")],
     "replaced-partial-sync": [("write", "d1", "f1", 2048, 5), ("cmd", "sync", "-B", "1")],
     "moved-across-disks-partial": [("mv", "d1", "f1", "d2", "f1"), ("cmd", "sync", "-B", "1")],
+    # a rewritten file whose stripes hold no block of the other disk: those stripes are WHOLLY pending, and older than what a scrub refreshes
+    "replaced-tail-partial-sync": [("write", "d1", "f3", 2048, 5), ("cmd", "sync", "-B", "1")],
     "killed-sync": [("rm", "d1", "f1"), ("write", "d2", "n2", 1024, 0), ("cmd", "sync", "--test-kill-after-sync")],
 }
 
@@ -212,6 +214,17 @@ def unsynced_job(j):
     st = res.tags.summary()
     if st.get("error_data", "0") != "0" or st.get("error_io", "0") != "0":
         v.append(dict(kind="unsynced-difference-counted-as-data-error", where=where, summary=st))
+    # the books of what was NOT verified CORRECT stay as they were (time, marks): not read at all, or read with an error reported
+    failed = set()
+    for tag in ("error", "parity_error"):
+        for t in res.tags.get(tag):
+            if len(t) > 1 and t[1].isdigit():
+                failed.add(int(t[1]))
+    for pos, inf in enumerate(c.info):
+        if inf is None or (pos in V and pos not in failed) or pos >= len(c2.info):
+            continue
+        if c2.info[pos] is None or (c2.info[pos][0], c2.info[pos][3]) != (inf[0], inf[3]):
+            v.append(dict(kind="books-moved-without-verification", where=where, pos=pos, before=inf, after=c2.info[pos]))
     after = {p: labmod._slurp(p) for l in range(cfg.levels) for p in L.parity_paths(l)}
     if before != after:
         v.append(dict(kind="scrub-touched-parity", where=where))
